@@ -165,6 +165,8 @@ def gen_spec(seed, avoid=(), missing=False):
             t['mem_seed'] = ch.take(5) if ch.chance(48) else None
             t['full'] = t['mem_seed'] is not None or ch.chance(40)
             t['label'] = ch.below(3)
+            # a compressed code area: the .p8.png reader then returns the code as stored (no newline supplied)
+            t['compressed'] = t['kind'] == 'p8png' and t['version'] != 0 and ch.chance(110)
     inc_lines = []
     for (ti, want_sel, sel_raw, form, pos_raw) in inc_choices:
         t = targets[ti % nt]
@@ -340,7 +342,8 @@ def target_file_bytes(t):
     if t['kind'] == 'lua':
         return bytes(t['data'])
     code = bytes(t['code'])
-    key = (t['kind'], code, t.get('version', 8), t.get('mem_seed'), t.get('full', True), t.get('label', 0))
+    key = (t['kind'], code, t.get('version', 8), t.get('mem_seed'), t.get('full', True), t.get('label', 0),
+           t.get('compressed', False))
     if key in _file_cache:
         return _file_cache[key]
     mem = cartgen.memory_from_seed(b'\x01' + t['mem_seed'])[0] if t.get('mem_seed') else bytes(0x4300)
@@ -356,9 +359,12 @@ def target_file_bytes(t):
     else:
         if b'\x00' in code or len(code) > 0x3d00 or code.startswith(b':c:'):
             raise SelfCheckError('code not storable raw: %r' % code[:40])
-        data = reffmt.write_p8png(label_rows(t.get('label', 0)), mem, code, t.get('version', 8))
+        area = reffmt.compress_literals(code) if t.get('compressed') else code
+        if len(area) > 0x3d00:
+            area = code
+        data = reffmt.write_p8png(label_rows(t.get('label', 0)), mem, area, t.get('version', 8))
         back = reffmt.read_p8png(data)
-        if back['code'] != code or back['code_kind'] != 'raw':
+        if back['code'] != code or back['code_kind'] != ('compressed' if area is not code else 'raw'):
             raise SelfCheckError('reference .p8.png writer/reader disagree on %r' % code)
     if len(_file_cache) > 200:
         _file_cache.clear()
@@ -471,6 +477,8 @@ def labels_for(spec):
                 labs.append('line_follows_target_without_final_newline')
         if t['kind'] == 'p8png' and content and not content.endswith(b'\n'):
             labs.append('p8png_code_no_final_newline')
+            if t.get('compressed'):
+                labs.append('p8png_compressed_no_final_newline')
         if not content:
             labs.append('empty_target')
         if b'\r\n' in content:
